@@ -107,6 +107,22 @@ func c10Wire(u *Update) *Update {
 	return &Update{SignedAccumulator: &SignedAccumulator{Data: append([]byte{}, u.SignedAccumulator.Data...), PKCounter: u.SignedAccumulator.PKCounter}, Events: c10CopyEvents(u.Events)}
 }
 
+// c10TransportInto encodes u and decodes it into dst, a value that may have been used before.
+func c10TransportInto(u *Update, form string, dst *Update) error {
+	if form == "json" {
+		b, err := json.Marshal(u)
+		if err != nil {
+			return err
+		}
+		return json.Unmarshal(b, dst)
+	}
+	b, err := cbor.Marshal(u, cbor.EncOptions{})
+	if err != nil {
+		return err
+	}
+	return cbor.Unmarshal(b, dst)
+}
+
 func c10Transport(u *Update, form string) (*Update, error) {
 	switch form {
 	case "memory":
@@ -260,7 +276,7 @@ func c10Corruptions(world, other *rvWorld, base *Update) []c10Cor {
 func TestVerifC10(t *testing.T) {
 	r := vkit.Start(t, "C10", "update-corruptions", 240*time.Second, 1500*time.Second)
 	defer r.Finish()
-	r.Rule = "base updates with 0,1,4,8,9 events of a 8-revocation history; every single corruption of the menu (event value/index +-1, swaps, delete/duplicate/insert, every byte flip / truncation length / extension / algorithm code / shorter well-formed digest of every parent hash, every byte of the signed accumulator blob, key counter +-1, accumulator substituted by every other validly signed one or by another key's, foreign events, the library's unexported-by-tag cache field for the verified accumulator filled in by the sender), thorough: every pair from the reduced menu; x transport {memory, JSON, CBOR, and JSON / CBOR with the corruption made on the decoded object} x operations {Update.Verify, Witness.Update on witnesses just before / inside / at / ahead of the message's window incl. re-signed accumulators with a later time, Update.Prepend (onto an update with and without events of its own), EventList.Verify}; non-trivial = corruption whose received message differs from the base; oracle: independent validator - success => authentic, rejection => receiver state unchanged"
+	r.Rule = "base updates with 0,1,4,8,9 events of a 8-revocation history; every single corruption of the menu (event value/index +-1, swaps, delete/duplicate/insert, every byte flip / truncation length / extension / algorithm code / shorter well-formed digest of every parent hash, every byte of the signed accumulator blob, key counter +-1, accumulator substituted by every other validly signed one or by another key's, foreign events, the library's unexported-by-tag cache field for the verified accumulator filled in by the sender), thorough: every pair from the reduced menu; x transport {memory, JSON, CBOR, JSON / CBOR with the corruption made on the decoded object, and JSON / CBOR decoded into an Update value that already received and verified the authentic message} x operations {Update.Verify, Witness.Update on witnesses just before / inside / at / ahead of the message's window incl. re-signed accumulators with a later time, Update.Prepend (onto an update with and without events of its own), EventList.Verify}; non-trivial = corruption whose received message differs from the base; oracle: independent validator - success => authentic, rejection => receiver state unchanged"
 	rvInstallEnv(t, "C10", r.Seed)
 	sk, pk := rvKeys(32, 7)
 	sk2, pk2 := rvKeys(32, 7)
@@ -277,7 +293,7 @@ func TestVerifC10(t *testing.T) {
 		dt   int64 // the accumulator is (re-)signed dt seconds later than the one witnesses are issued against
 	}
 	bases := []baseSpec{{1, H, 0}, {5, H, 0}, {H, H, 0}, {0, H, 0}, {H + 1, H, 0}, {2, 5, 0}, {5, H, 10}, {H + 1, H, 10}}
-	forms := []string{"memory", "json", "cbor", "json>corrupt", "cbor>corrupt"}
+	forms := []string{"memory", "json", "cbor", "json>corrupt", "cbor>corrupt", "json>used-receiver", "cbor>used-receiver"}
 	for bi, bs := range bases {
 		base := world.Window(bs.a, bs.b, bs.dt)
 		cors := c10Corruptions(world, other, base)
@@ -327,6 +343,26 @@ func TestVerifC10(t *testing.T) {
 				// transported first and the decoded object is corrupted in place (whatever decoding left in
 				// unexported fields of the events stays), e.g. by a component between decoder and verifier.
 				received := func() *Update {
+					if strings.HasSuffix(form, ">used-receiver") {
+						// the receiver decodes into an Update value that already received (and verified) the authentic
+						// message: whatever that left inside the value must not vouch for the next message
+						inner := strings.TrimSuffix(form, ">used-receiver")
+						used, err := c10Transport(c10Wire(base), inner)
+						if err != nil {
+							return nil
+						}
+						if _, err := used.Verify(pk); err != nil {
+							return nil
+						}
+						u := c10Wire(base)
+						for _, c := range combo {
+							c.f(u)
+						}
+						if c10TransportInto(u, inner, used) != nil {
+							return nil
+						}
+						return used
+					}
 					if strings.HasSuffix(form, ">corrupt") {
 						out, err := c10Transport(c10Wire(base), strings.TrimSuffix(form, ">corrupt"))
 						if err != nil {
@@ -352,7 +388,7 @@ func TestVerifC10(t *testing.T) {
 					return c10Wire(recv)
 				}
 				pan, msg := vkit.Guard(func() {
-					if strings.HasSuffix(form, ">corrupt") {
+					if strings.HasSuffix(form, ">corrupt") || strings.HasSuffix(form, ">used-receiver") {
 						recv = received()
 						return
 					}
